@@ -117,3 +117,21 @@ def relayout(rng, x, p=0.2):
         v = big[tuple(idx)]
     v[...] = x
     return v
+
+
+COPY_WAYS = ("deepcopy", "pickle", "copy")
+
+
+def copied(obj, way):
+    """the object as a program that hands objects to workers sees it: copy.deepcopy, a pickle round trip, or copy.copy
+    (way: index or name).  The copy is an object of the same class in the same state; whatever the property says
+    of the original it says of the copy."""
+    import copy
+    import pickle
+
+    way = COPY_WAYS[way % len(COPY_WAYS)] if isinstance(way, int) else way
+    if way == "deepcopy":
+        return copy.deepcopy(obj)
+    if way == "pickle":
+        return pickle.loads(pickle.dumps(obj, protocol=pickle.HIGHEST_PROTOCOL))
+    return copy.copy(obj)
